@@ -248,7 +248,8 @@ static void builder_gen(Rng &r, Plan &p, Tier tier, uint64_t index)
 			int k = (int)r.below(4);
 			for (int j = 0; j < k; j++)
 				s.sub.push_back(gen_edit(r));
-			s.set("pubkey", r.chance(1, 8) ? 1 : 0); // callback injects a public-only key
+			// callback injects a key for that token only: 1 public-only (must fail), 2 a valid oct key with HS256
+			s.set("pubkey", r.chance(1, 8) ? 1 : (r.chance(1, 4) ? 2 : 0));
 			s.set("off", r.chance(1, 5) ? 1 : 0);
 			break;
 		}
@@ -280,7 +281,7 @@ static void builder_exec(Ctx &ctx)
 	int64_t nbf_off = 0, exp_off = 0;
 	int key = 0; // as SETKEY selector; 0 none
 	const std::vector<Step> *prog = NULL;
-	bool cb_pub = false;
+	int cb_pub = 0;
 	ProgCtx pc;
 	int gens = 0;
 	ctx.nontrivial = plan.steps.size() >= 3;
@@ -333,16 +334,20 @@ static void builder_exec(Ctx &ctx)
 			if (s.I("off")) {
 				jwt_builder_setcb(b, NULL, NULL);
 				prog = NULL;
-				cb_pub = false;
+				cb_pub = 0;
 			} else {
 				prog = &s.sub;
-				cb_pub = s.I("pubkey") != 0;
+				cb_pub = (int)s.I("pubkey");
 				pc = ProgCtx();
 				pc.prog = prog;
-				if (cb_pub) {
+				if (cb_pub == 1) {
 					pc.set_key = true;
 					pc.setkey = K.ec_pub.item;
 					pc.set_alg = JWT_ALG_ES256;
+				} else if (cb_pub == 2) {
+					pc.set_key = true;
+					pc.setkey = K.oct_l.item;
+					pc.set_alg = JWT_ALG_HS256;
 				}
 				jwt_builder_setcb(b, prog_cb, &pc);
 			}
@@ -382,7 +387,7 @@ static void builder_exec(Ctx &ctx)
 			if (prog)
 				for (auto &e : *prog)
 					model_edit(eh, ec, e);
-			int ekey = cb_pub && prog ? 3 : key;
+			int ekey = cb_pub == 1 && prog ? 3 : cb_pub == 2 && prog ? 1 : key;
 			bool must_fail = ekey == 3 || ekey == 4;
 			const AlgInfo *ea = alg_by_id(ekey == 1 ? JWT_ALG_HS256 : ekey == 2 ? JWT_ALG_ES256 : JWT_ALG_NONE);
 			if (ea->id != JWT_ALG_NONE && !json_object_get(eh, "typ"))
@@ -781,7 +786,9 @@ static void callback_gen(Rng &r, Plan &p, Tier tier, uint64_t index)
 			int fail = (int)r.pick(std::vector<int>{0, 0, 1, 1, 1, 2, 2, 3, 3, 4, 5, 6, 7});
 			s.set("fail", fail);
 			s.set("cbret", r.chance(1, 8) ? 1 : 0);
-			s.set("cbsel", r.chance(1, 8) ? r.range(1, 3) : 0); // callback selects key/alg: 1 admissible pair, 2 alg mismatch, 3 key without alg and no alg
+			// callback selects key/alg: 1 admissible pair, 2 alg mismatch, 3 key without alg and no alg,
+			// 4 keeps the key installed by setkey (it carries alg HS256) and sets alg HS512, 5 same but sets the key's own alg
+			s.set("cbsel", r.chance(1, 6) ? r.range(1, 5) : 0);
 			// program biased to touch exactly the claim the token fails on
 			static const int focus[] = {-1, 3, 4, 6, 5, 7, 3, 6};
 			int kk = (int)r.range(1, 4);
@@ -805,7 +812,7 @@ static void callback_exec(Ctx &ctx)
 	K.init(ctx, plan.rng);
 	// an oct key that carries its own alg, for callback-selected pairs
 	Rng r2(mix64(plan.rng, 0xC19));
-	KeyRef oct_alg = key_gen_oct(r2, 32);
+	KeyRef oct_alg = key_gen_oct(r2, 64); // long enough for HS512, tagged HS256
 	LoadedKey oct_alg_l;
 	{
 		JwkOpts o;
@@ -863,12 +870,21 @@ static void callback_exec(Ctx &ctx)
 				pay += strf("\"iss\":\"%s\",", fail == 3 ? "intruder" : iss.c_str());
 			pay += strf("\"sub\":\"%s\",\"aud\":\"%s\",\"exp\":%s,\"nbf\":%s,\"a\":1}", fail == 4 ? "someone-else" : "someone", fail == 5 ? "audience-2" : "audience-1", exp.c_str(), nbf.c_str());
 			std::string tok;
-			ref_make_token(is_signed ? "{\"alg\":\"HS256\",\"typ\":\"JWT\"}" : "{\"alg\":\"none\"}", pay, is_signed ? K.oct.get() : NULL, is_signed ? hs256 : NULL, tok);
-
 			int cbsel = (int)s.I("cbsel");
+			if (is_signed && (cbsel == 4 || cbsel == 5)) {
+				// signed with the tagged key's material under the algorithm the callback will name
+				const AlgInfo *ca = alg_by_name(cbsel == 4 ? "HS512" : "HS256");
+				ref_make_token(strf("{\"alg\":\"%s\",\"typ\":\"JWT\"}", ca->name), pay, oct_alg.get(), ca, tok);
+			} else
+				ref_make_token(is_signed ? "{\"alg\":\"HS256\",\"typ\":\"JWT\"}" : "{\"alg\":\"none\"}", pay, is_signed ? K.oct.get() : NULL, is_signed ? hs256 : NULL, tok);
+
 			bool cbret = s.I("cbret") != 0;
 			// twin without callback
-			jwt_checker_t *plain = make_checker(is_signed);
+			jwt_checker_t *plain = make_checker(is_signed && cbsel < 4);
+			if (is_signed && cbsel >= 4) {
+				Armed a;
+				jwt_checker_setkey(plain, JWT_ALG_NONE, oct_alg_l.item);
+			}
 			VerifyOut v0 = lib_verify(ctx, plain, tok.c_str());
 			{
 				Armed a;
@@ -876,11 +892,19 @@ static void callback_exec(Ctx &ctx)
 			}
 			// with the program callback
 			jwt_checker_t *c = make_checker(is_signed && cbsel == 0);
+			if (is_signed && cbsel >= 4) {
+				Armed a;
+				jwt_checker_setkey(c, JWT_ALG_NONE, oct_alg_l.item);
+			}
 			ProgCtx pc;
 			pc.prog = &s.sub;
 			pc.ret = cbret ? 1 : 0;
 			bool sel_admissible = true;
-			if (cbsel && is_signed) {
+			if (cbsel >= 4 && is_signed) {
+				// key untouched, only the algorithm changes
+				pc.set_alg = cbsel == 4 ? JWT_ALG_HS512 : JWT_ALG_HS256;
+				sel_admissible = cbsel == 5;
+			} else if (cbsel && is_signed) {
 				pc.set_key = true;
 				if (cbsel == 1) {
 					pc.setkey = K.oct_l.item;
